@@ -76,6 +76,10 @@ def gen_cases(tier):
             if kind in ('png', 'svg'):
                 for sub in itertools.combinations(range(15), 1):
                     yield ('color', kind, v, sub, 2)
+            for sub in itertools.combinations(range(15), 1):
+                yield ('color', kind, v, sub, 3)
+                if kind != 'ppm':
+                    yield ('color', kind, v, sub, 4)
             if kind == 'png' and v in ('M4', 7):
                 # transparent light modules + 2..4 further colours: palettes of 4, 5 and 6 entries incl. the transparent one
                 for r in (2, 3, 4):
@@ -211,11 +215,28 @@ def do_color(fmt, v, sub, variant, acc):
     cls, val = Lo.function_map(v)
     kw = {OPTS[i]: OPT_COLOR[OPTS[i]] for i in sub}
     dark, light = '#000', ('#fff' if fmt != 'svg' else None)
+    if variant == 3:
+        # only two distinct colours in the whole map, but the option crosses the dark/light divide
+        light = '#fff'
+        kw = {'light': '#fff'} if fmt == 'svg' else {}
+        for i in sub:
+            o = OPTS[i]
+            # same spelling as the defaults for SVG (its shortcut compares the colour values as given), names for the others
+            if fmt == 'svg':
+                kw[o] = '#fff' if (o.endswith('_dark') or o == 'dark_module') else '#000'
+            else:
+                kw[o] = 'white' if (o.endswith('_dark') or o == 'dark_module') else 'black'
+    if variant == 4:
+        # a per-type option set to None = transparent for that type only
+        kw = {OPTS[i]: None for i in sub}
+        if fmt == 'svg':
+            light = '#eee'
+            kw['light'] = light
     if variant == 2:
         # transparent light modules + the first CSS colour as dark colour (the PNG writer's stand-in for "transparent")
         dark, light = 'aliceblue', None
         kw['dark'], kw['light'] = dark, light
-    elif variant:
+    elif variant == 1:
         dark, light = 'darkblue', '#ffffe0'
         kw['dark'], kw['light'] = dark, light
     border = 1 if variant == 1 else None
